@@ -95,6 +95,28 @@ def _check_runtime_types(node: ASTNode, type_map: Mapping[Field, FieldTypeInfo])
     return incorrect_fields
 
 
+def _digest_value_text(val: Any, nested: bool = False) -> str:
+    """Text of a property value as used in the digests.
+
+    Same as str() (repr() for nested values), except that sets are
+    rendered with their elements in a canonical (sorted) order, since the
+    iteration order of a set depends on insertion order and on the string
+    hash seed of the process.
+    """
+    if isinstance(val, (set, frozenset)):
+        if not val:
+            return f"{type(val).__name__}()"
+
+        items = ", ".join(sorted(_digest_value_text(v, True) for v in val))
+        return f"{{{items}}}" if type(val) is set else f"{type(val).__name__}({{{items}}})"
+
+    if type(val) is tuple:
+        items = ", ".join(_digest_value_text(v, True) for v in val)
+        return f"({items},)" if len(val) == 1 else f"({items})"
+
+    return repr(val) if nested else str(val)
+
+
 def _escape_digest_value(text: str) -> str:
     """Escape the characters that delimit a value in the digest input, so that
     a property value can never spell the end of its own entry (and the start
@@ -235,7 +257,7 @@ class ASTNode(DataClassSerializeMixin):
             sort_keys=True,
         ):
             cid_data += f":{f.name}="
-            cid_data += f"{type(val)}({_escape_digest_value(str(val))})"
+            cid_data += f"{type(val)}({_escape_digest_value(_digest_value_text(val))})"
 
         # Full ID must include origin's (current node and children)
         id_data = f"{self.__class__.__name__}@{self.origin.fqn}{cid_data}"
